@@ -186,7 +186,7 @@ impl<T: Send> BoundedSyncSender<T> {
     let mut is_registered = false;
 
     loop {
-      if self.shared.consumer_dropped.load(Ordering::Acquire) {
+      if self.closed.load(Ordering::Relaxed) || self.shared.consumer_dropped.load(Ordering::Acquire) {
         if is_registered {
           self.shared.unregister(Role::Send);
         }
